@@ -420,10 +420,10 @@ def run(ctx):
     ctx.units("determinism-hashseeds", unit_determinism, [{}])
     ctx.units("pool-pairs-triples", unit_pool, [{"lengths": [2, 3], "sample": 3 if q else 0, "seed": ctx.seed, "shard": i, "nshards": ns} for i in range(ns)], procs=ns)
     ctx.units("stream-pool-pairs-triples", unit_stream_pool, [{"lengths": [2, 3], "sample": 0, "seed": ctx.seed, "shard": i, "nshards": ns} for i in range(ns)], procs=ns)
-    ctx.units("sampled-histories", unit_sampled, [{"n": 120 if q else 2000, "seed": ctx.seed, "shard": i} for i in range(4 if q else 16)], procs=16)
-    ctx.units("matcher-reset", unit_reset, [{"n": 1000 if q else 8000, "seed": ctx.seed, "shard": i} for i in range(2 if q else 16)], procs=16)
+    ctx.units("sampled-histories", unit_sampled, [{"n": 180 if q else 2000, "seed": ctx.seed, "shard": i} for i in range(8 if q else 16)], procs=16)
+    ctx.units("matcher-reset", unit_reset, [{"n": 1500 if q else 8000, "seed": ctx.seed, "shard": i} for i in range(8 if q else 16)], procs=16)
     ctx.units("interleavings-exhaustive", unit_schedules, [{"maxreads": 4 if q else 6, "shard": i, "nshards": ns} for i in range(ns)], procs=ns)
-    ctx.units("interleavings-sampled", unit_schedules_sampled, [{"n": 60 if q else 800, "seed": ctx.seed, "shard": i} for i in range(4 if q else 16)], procs=16)
+    ctx.units("interleavings-sampled", unit_schedules_sampled, [{"n": 90 if q else 800, "seed": ctx.seed, "shard": i} for i in range(8 if q else 16)], procs=16)
     ctx.exhaustive = False
     ctx.extra["exhaustive_part"] = ("all ordered pairs%s of %d state-perturbing documents x 3 matcher defaults x 3 stop-mode patterns; all interleavings of the first %d reads of every pair of %d small documents" % (
         " (and a 1/3 sample of triples)" if q else " and triples", len(POOL), 4 if q else 6, len(SCHED_DOCS)))
